@@ -27,10 +27,12 @@ def thrower_key(th):
     return "%s:%s" % (kind, nm)
 
 
-def analyse(mod, rep):
-    """run every driver operation; returns {op: [trace results]}"""
+def analyse(mod, rep, select=None):
+    """run every driver operation (or the selected ones; operations reserved for one check run only when selected); returns {op: [trace results]}"""
     out = {}
     for n in mod.ops:
+        if (select is not None and n not in select) or (select is None and mod.ops[n].get("only")):
+            continue
         try:
             out[n] = owning.analyse_op(mod, n)
         except (owning.absint.Limit,) as e:
